@@ -315,7 +315,9 @@ var deepCycleKinds = []string{"ptr-struct-self", "ptr-struct-2", "map-self", "sl
 	"any-mixed", "struct-any-self", "struct-any-value", "embedded-ptr", "map-value-ptr", "slice-ptr-self", "map-ptr-self", "named-iface-struct", "ptrptr-struct-self"}
 
 // cycles made only of pointers and interfaces: no JSON depth is ever added (F4 / F11)
-var flatCycleKinds = []string{"any-ptr-self", "named-ptr-self", "ptr-ptr-any", "any-2cycle", "named-2cycle", "named-iface-ptr", "ptr-any-ptr-ptr"}
+var flatCycleKinds = []string{"any-ptr-self", "named-ptr-self", "ptr-ptr-any", "any-2cycle", "named-2cycle", "named-iface-ptr", "ptr-any-ptr-ptr",
+	// the cycle is reached through a depth-free tail: the head of the chain is not part of it
+	"tailed-any-1", "tailed-any-3", "tailed-named-1", "tailed-named-2", "tailed-2cycle"}
 
 func cycleValue(kind string) any {
 	switch kind {
@@ -412,6 +414,34 @@ func cycleValue(kind string) any {
 		var i tNI
 		i = &i
 		return i
+	case "tailed-any-1":
+		var loop any
+		loop = &loop
+		var tail any = &loop
+		return &tail
+	case "tailed-any-3":
+		var loop any
+		loop = &loop
+		var t1 any = &loop
+		var t2 any = &t1
+		p := &t2
+		return &p
+	case "tailed-named-1":
+		var loop tP
+		loop = &loop
+		tail := tP(&loop)
+		return tP(&tail)
+	case "tailed-named-2":
+		var loop tP
+		loop = &loop
+		t1 := tP(&loop)
+		t2 := tP(&t1)
+		return tP(&t2)
+	case "tailed-2cycle":
+		var a, b any
+		a, b = &b, &a
+		var tail any = &a
+		return &tail
 	case "ptr-any-ptr-ptr":
 		var a any
 		p1 := &a
@@ -526,7 +556,7 @@ func runCycle(w *run.W, a *cycleArgs) {
 
 func isPointer(v any) bool {
 	switch v.(type) {
-	case *tL, *tLL, *tA, *tI, *tE, *tN, *tNS, *any, **any:
+	case *tL, *tLL, *tA, *tI, *tE, *tN, *tNS, *any, **any, ***any:
 		return true
 	}
 	return false
